@@ -23,6 +23,8 @@ from .source import AnalysisError
 
 LEAF_SRC = '''
 class StubSqlLeaf(TableImpl):
+    backend_name = "stub"
+
     def __init__(self, name, schema, table):
         super().__init__(name, schema)
         self.table = table
@@ -726,4 +728,70 @@ def over_scenarios(w: RealWorld):
         out.append((f"window function with {label}: OVER(PARTITION BY <partition_by=> ORDER BY <arrange=>)", ok,
                     f"a window function with {label} compiles to {str(o)[:220]}: PARTITION BY must hold the compiled partition_by= columns and ORDER BY the compiled "
                     "arrange= keys (neither swapped nor dropped)"))  # fmt: skip
+    return out
+
+
+def ingress_scenarios(w: RealWorld):
+    """`preprocess_arg` interpreted on a stub table with a hidden column, for every kind of reference an expression can carry:
+    `C.name` resolves to the table's visible column of that name (also nested below functions), a column object in scope -
+    visible or hidden - keeps its identity, a column of another table and an unknown name are refused with
+    ColumnNotFoundError, and the expression object the caller passed is not modified.
+    -> list of (tag, description, ok, detail)   (tag: resolve | unknown | foreign | untouched)"""
+    p = w.p
+    out = []
+    venv = p.env_of(p.repo.mod("pipe.verbs"))
+    pa = venv["preprocess_arg"]
+
+    def table():
+        leaf, cache = w.source("t", ["a", "b", "h"])
+        # h is hidden: in scope, not visible
+        cache.attrs["name_to_uuid"] = {n: u for n, u in cache.attrs["name_to_uuid"].items() if n != "h"}
+        cache.attrs["uuid_to_name"] = {u: n for u, n in cache.attrs["uuid_to_name"].items() if n != "h"}
+        return leaf, cache, p.new("pipe.table", "Table", _ast=leaf, _cache=cache)
+
+    def cname(n):
+        return p.new("tree.col_expr", "ColName", name=n, _dtype=None, _ftype=None)
+
+    def uid_of(e):
+        return e.attrs.get("_uuid") if isinstance(e, Obj) else None
+
+    def run(label, tag, build, judge):
+        leaf, cache, tbl = table()
+        other_leaf, other_cache = w.source("o", ["a"])
+        e = build(cache, other_cache)
+        snap = dict(e.attrs) if isinstance(e, Obj) else None
+        snap_args = list(e.attrs["args"]) if isinstance(e, Obj) and isinstance(e.attrs.get("args"), list) else None
+        try:
+            r = ("value", p.call(pa, [e, tbl]))
+        except PyRaise as ex:
+            r = ("raise", ex.name)
+        ok, detail = judge(r, cache, leaf)
+        out.append((tag, label, ok, f"preprocess_arg, {label}: {detail}"))
+        if isinstance(e, Obj) and r[0] == "value":
+            same = dict(e.attrs) == snap and (snap_args is None or all(x is y for x, y in zip(e.attrs["args"], snap_args)) and len(e.attrs["args"]) == len(snap_args))
+            out.append(("untouched", f"{label}: the caller's expression object is not modified", same,
+                        f"preprocess_arg, {label}: the expression the caller passed was modified in place (its children now point into this table: using the same expression on another table resolves against the wrong one)"))  # fmt: skip
+
+    def is_col(r, uid, name=None):
+        return r[0] == "value" and isinstance(r[1], Obj) and r[1].cls.name == "Col" and r[1].attrs.get("_uuid") == uid and (name is None or r[1].attrs.get("name") == name)
+
+    run("C.a", "resolve", lambda c, o: cname("a"), lambda r, c, leaf: (is_col(r, "t.a", "a") and r[1].attrs.get("_ast") is leaf, f"gives {r[0]} {uid_of(r[1]) if r[0] == 'value' else r[1]}, documented: the column `a` of this table"))
+    run("a visible column of this table", "resolve", lambda c, o: c.attrs["cols"]["t.b"], lambda r, c, leaf: (is_col(r, "t.b"), f"gives {r[0]} {uid_of(r[1]) if r[0] == 'value' else r[1]}, documented: the same column"))
+    run("a hidden column of this table (in scope)", "resolve", lambda c, o: c.attrs["cols"]["t.h"], lambda r, c, leaf: (is_col(r, "t.h"), f"gives {r[0]} {uid_of(r[1]) if r[0] == 'value' else r[1]}, documented: accepted (hidden columns stay referable)"))
+    run("C.zz (no such column)", "unknown", lambda c, o: cname("zz"), lambda r, c, leaf: (r == ("raise", "ColumnNotFoundError"), f"gives {r}, documented: ColumnNotFoundError"))
+    run("C.h (the name of a hidden column)", "unknown", lambda c, o: cname("h"), lambda r, c, leaf: (r == ("raise", "ColumnNotFoundError"), f"gives {r}, documented: ColumnNotFoundError (hidden columns have no name)"))
+    run("a column of another table", "foreign", lambda c, o: o.attrs["cols"]["o.a"], lambda r, c, leaf: (r == ("raise", "ColumnNotFoundError"), f"gives {r}, documented: ColumnNotFoundError"))
+
+    def nested(c, o):
+        return w.fn("f", EW, w.fn("g", EW, cname("a")), c.attrs["cols"]["t.b"])
+
+    def judge_nested(r, c, leaf):
+        if r[0] != "value" or not isinstance(r[1], Obj):
+            return False, f"gives {r}"
+        inner = r[1].attrs["args"][0].attrs["args"][0] if r[1].attrs.get("args") and isinstance(r[1].attrs["args"][0], Obj) and r[1].attrs["args"][0].attrs.get("args") else None
+        return (isinstance(inner, Obj) and inner.cls.name == "Col" and inner.attrs.get("_uuid") == "t.a" and uid_of(r[1].attrs["args"][1]) == "t.b",
+                f"the nested C.a becomes {inner.cls.name if isinstance(inner, Obj) else inner}({uid_of(inner)}), documented: the column t.a")
+
+    run("f(g(C.a), t.b)", "resolve", nested, judge_nested)
+    run("f(<column of another table>)", "foreign", lambda c, o: w.fn("f", EW, o.attrs["cols"]["o.a"]), lambda r, c, leaf: (r == ("raise", "ColumnNotFoundError"), f"gives {r}, documented: ColumnNotFoundError"))
     return out
